@@ -1,0 +1,22 @@
+//! Verification hook (only compiled with `--cfg capy_verif`): exposes the
+//! crate-private x86-64 System V pass-mode computation to the /verif harnesses.
+use cranelift::codegen::ir::types;
+use hir::common::{ParamTy, Ty};
+use internment::Intern;
+
+/// Pass modes chosen by `x86_64::fn_ty_to_abi` for the signature `params -> ret`
+/// (layouts and final types are computed first, as `compile_obj` does).
+pub fn abi_of(params: &[Intern<Ty>], ret: Intern<Ty>) -> String {
+    let all = || params.iter().copied().chain(std::iter::once(ret));
+    crate::layout::calc_layouts(all(), 64);
+    crate::convert::calc_finals(all(), types::I64);
+    let ps: Vec<ParamTy> = (params.iter())
+        .map(|&ty| ParamTy {
+            ty,
+            comptime: None,
+            varargs: false,
+            impossible_to_differentiate: false,
+        })
+        .collect();
+    crate::convert::abi::x86_64::fn_ty_to_abi((&ps, ret)).verif_render()
+}
